@@ -10,7 +10,7 @@ CHECKS = {
  "C20": (True, "differential exhaustive exploration across six separately built feature configurations; transcripts compared record by record",
          "The probe is built six times ({none, alloc, std} x {half, no half} for minicbor and minicbor-serde) and runs the same corpus (all byte strings up to the bound, hostile heads, all small trees and their deviations) through ~85 decoding, encoding, length and serde operations; every (operation, input) record (value digest, error class, position) must equal the std+half record except for exactly the documented differences, which are evaluated on the parsed item (indefinite-in-definite nesting without alloc, indefinite strings / collect_str in the bridge without alloc, half items without half).",
          "trusted: refmodel parser for the rewrite predicates; only x86_64 is installed (32-bit branches not built)", "5/C20"),
- "C17": (True, "exhaustive enumeration of a serde type family (13 wrapper shapes x 26 leaf types, compiled) x small value domains against an independent reference Serializer",
+ "C17": (True, "exhaustive enumeration of a serde type family (13 wrapper shapes x ~50 leaf types incl. second-level wrappers and zero-copy leaves, compiled) x small value domains against an independent reference Serializer",
          "Every Wrapper<Leaf> instantiation spanning every Serializer/Deserializer method and all four serde enum representations plus flatten is serialised with the bridge: the bytes must be one well-formed item equal to the preferred serialisation produced by an independent reference Serializer of the documented representation; deserialising (as produced, with a trailing byte, with each head widened, with indefinite top-level containers and unknown extra struct fields) must return an equal value, consume exactly the item and re-serialise identically.",
          "trusted: serde_family::refser (reference Serializer), serde itself; char / unit under internally tagged, untagged and flatten recorded as known findings", "5/C17"),
  "C18": (True, "exhaustive enumeration of shared-data-model types x values x re-framings, differential between the native codec and the serde bridge",
